@@ -1,6 +1,7 @@
 import CifModel.Lemmas.LadderDup
 import CifModel.Lemmas.LadderClone
 import CifModel.Lemmas.LadderNames
+import CifModel.Lemmas.LadderShape
 /-
   CifModel.Lemmas.LadderSummary — the ladder summaries specialised to a call that starts with an empty window
   (no request made yet, nothing live): the statements the property theorems of Props/C17 restate.
